@@ -164,9 +164,20 @@ type Spec struct {
 	LenientLookup bool `json:"lenient_lookup,omitempty"`
 	// KeysPerIssuer: the storage keeps one response-signing key per issuer (tenant) and picks it by the issuer in the context
 	KeysPerIssuer bool `json:"keys_per_issuer,omitempty"`
+	// Tenants: records that exist for one issuer only, by the host of that issuer. A storage that serves several tenants looks
+	// service providers and users up under the issuer it finds in the context of the call: for a request made to a host listed
+	// here only that tenant's service providers and users exist (the same entity ID / login name may exist under several
+	// tenants, with different endpoints / data).
+	Tenants map[string]TenantSpec `json:"tenants,omitempty"`
 	// RequestIDPrefix: what the identifiers the storage issues for persisted requests start with ("" = "stored-"); identifiers
 	// are the storage's business and may contain any character
 	RequestIDPrefix string `json:"request_id_prefix,omitempty"`
+}
+
+// TenantSpec holds the records of one tenant of a multi-tenant storage (see Spec.Tenants).
+type TenantSpec struct {
+	SPs   []SPSpec   `json:"sps,omitempty"`
+	Users []UserSpec `json:"users,omitempty"`
 }
 
 // MetadataXML renders the SP metadata through the harness's own writer.
